@@ -372,6 +372,9 @@ def rgs_ok(ks):
 _DATES = [date(2020, 1, 1), date(2020, 1, 2), date(2021, 6, 30), date(1999, 12, 31),
           date(2000, 2, 29), date(2024, 3, 1), date(2030, 1, 1), date(1970, 1, 1)]
 _STRS = ['a', 'b', 'A', '', 'a ', 'ab', 'é', 'z']
+# pairwise distinct ints whose hashes collide in pairs (hash(-1) == hash(-2), hash(0) == hash(2**61-1), hash(1) == hash(2**61), ...):
+# code that inspects keys through the hash alone would confuse them
+_HASHY = [-1, -2, 0, 2 ** 61 - 1, 1, 2 ** 61, 2 * (2 ** 61 - 1), 2]
 
 
 def render_key(k, kind, none_class=-1):
@@ -386,6 +389,8 @@ def render_key(k, kind, none_class=-1):
         return k == 1
     if kind == 'date':
         return _DATES[k]
+    if kind == 'hashy':
+        return _HASHY[k]
     raise ValueError(kind)
 
 
